@@ -71,7 +71,15 @@ def main(argv=None) -> int:
             )
             return 0
         env.install_watchdog()
-        v = mod.replay(data)
+        if data.get("crash"):
+            # recorded crash of the whole check inside library code: re-run the check
+            try:
+                res = mod.run(data.get("tier", tier), data.get("seed", seed))
+                v = (res.get("violations") or [None])[0]
+            except Exception:
+                v = {"sig": data.get("sig"), "what": traceback.format_exc()[-3000:]}
+        else:
+            v = mod.replay(data)
         if v is None:
             print(f"replay of {args.replay}: property {pid} holds on this history")
             return 0
@@ -83,7 +91,16 @@ def main(argv=None) -> int:
     try:
         res = mod.run(tier, seed)
     except Exception:
-        traceback.print_exc()
+        tb = traceback.format_exc()
+        print(tb)
+        if "/metador_core/" in tb and os.environ.get("VERIF_STRICT_HARNESS") != "1":
+            # the code under test raised where the driver requires success (never happens on a tree where the
+            # property holds, otherwise this check would be broken): report it as a violation, not as a harness error
+            lib = [ln.strip() for ln in tb.splitlines() if "/metador_core/" in ln]
+            v = {"sig": {"kind": "unexpected-exception-in-library", "where": lib[-1][:200] if lib else None}, "what": tb[-3000:], "crash": True, "tier": tier, "seed": seed}
+            path = write_replay(pid, v)
+            print(f"VIOLATION property={pid} replay={path}")
+            return 1
         print(f"HARNESS-ERROR property={pid}")
         return 2
     wall = time.time() - t0
